@@ -360,6 +360,8 @@ polyseed_data* pv_seed_from_model(const pv_mseed* m) {
     return st == POLYSEED_OK ? s : NULL;
 }
 
+void pv_arm_some_request(void) { uint32_t k = pv_randn(&pv_w->junk_rng, 6); pv_w->fail_countdown = k < 4 ? 1 : (long)k - 2; }     /* 1 (4/6), 2 or 3 */
+
 /* ------------------------------------------------------------------ concurrent sections of the functional drivers */
 #include <pthread.h>
 typedef struct conc_arg { int tid, iters, yield_pct; uint64_t seed; pv_conc_fn fn; void* user; pv_conc_result* res; pthread_barrier_t* bar; } conc_arg;
